@@ -144,6 +144,31 @@ def run(pid, tier):
         if not m and info['complete'] and len(proj) > r.distinct and not rep.viol and not rep.known_hits:
             rep.broken.append('alphabet %s: implementation reaches %d abstract states, specification %d' % (a, len(proj), r.distinct))
         os.unlink(w + '/x.ndjson')
+    # an application whose error callback re-enters the library (takes the error out / empties the queue while it is announced)
+    r = lib.tlc('MCStatusNested', 'MCStatusNested_N.cfg', timeout=900, xmx='8g')
+    rep.add_tlc('MCStatusNested_N', r, 'model checking of ScpiStatusNested (pushes drained by the error callback): StbCoherent, QueueBounded, Sticky, Latch, NestedSetsClassBit, SrqOnRise')
+    if r.violations:
+        rep.broken.append('specification violates its own property %s in MCStatusNested_N' % r.violations)
+    g = lib.tlc('GenStatusOpsN', 'GenStatusOpsN.cfg', workers=1, env={'OUT': w + '/opsn.ndjson'}, timeout=120)
+    if g.rc != 0:
+        rep.broken.append('GenStatusOpsN failed')
+    else:
+        with open(w + '/opsn.txt', 'w') as f:
+            for l in open(w + '/opsn.ndjson'):
+                f.write(' '.join(str(x) for x in json.loads(l)) + '\n')
+        os.unlink(w + '/opsn.ndjson')
+        for cfgname in ('default', 'noinfo'):
+            exen = exe if cfgname == 'default' else lib.build('drv_status', ['drv_status.c'], config='noinfo')
+            d = lib.run_driver(exen, ['explore', w + '/opsn.txt', 2, 400000, w + '/n.raw'])
+            if d['rc'] != 0:
+                rep.violation('driver-failure', dict(alphabet='N', build=cfgname, rc=d['rc'], stderr=d['stderr'].decode(errors='replace')[-2000:]))
+                continue
+            info = json.loads(d['stdout'].decode().strip().splitlines()[-1])
+            subprocess.run('LC_ALL=C sort -u %s/n.raw > %s/n.ndjson; rm %s/n.raw' % (w, w, w), shell=True, check=True)
+            rep.cov['driver_runs'].append(dict(alphabet='N (nested error callback)', build=cfgname, cap=2, impl_concrete_states=info['concrete_states'],
+                                               impl_transitions=info['transitions'], spec_states=r.distinct, complete=info['complete']))
+            validate(rep, pid, w + '/n.ndjson', 'explore-N-' + cfgname)
+            os.unlink(w + '/n.ndjson')
     steps = 60000 if tier == 'quick' else 600000
     for cap in (1, 3, 256):
         d = lib.run_driver(exe, ['walk', lib.seed() * 7 + cap, (steps // 2) if cap < 256 else 3000, cap, w + '/walk.ndjson'])
